@@ -46,19 +46,95 @@ def first_descent(recs, order, contigs):
     return None
 
 
-def eval_file(r, recs, order, contigs, typed):
+READ_ROUTES = ["lines", "lines-nl", "path", "gz", "iterator"]
+# contig lists declared by the files read so far in this process, in order of first use: a failure records them, so that a
+# replay can read files with those lists first (state that the library carries from one reader to the next)
+_EARLIER = []
+
+
+def warm_up(earlier):
+    """Read one small sorted file per earlier contig list (a record on every contig), as the run had done before the case."""
+    for cs in earlier:
+        lines = ["#version gdc-1.0.0", "#annotation.spec my-spec", "#sort.order Coordinate", "#contigs " + ",".join(cs), "\t".join(UNTYPED)]
+        lines += ["\t".join(["G", c, "1", "1", "T1", "N1"]) for c in cs]
+        impl.run({"op": "reader.run", "lines": lines, "mode": "Silent"})
+
+
+def read_via(route, lines, mode, tmp):
+    """Iterate the file through another of the library's ways of reading it: lines that keep their line ends, a path, a
+    gzip path, or the enforcing iterator wrapped around the reader by hand.  Same shape as the reader.run answer, the
+    records reduced to their text."""
+    import gzip
+    import hashlib
+    import os
+    from maflib.reader import MafReader
+    from maflib.sort_order import SortOrderEnforcingIterator
+    md = impl.MODES[mode]
+    with impl.LogCapture():
+        try:
+            if route in ("path", "gz"):
+                p = os.path.join(tmp, "f_%s.maf%s" % (hashlib.sha1("\n".join(lines).encode("utf-8")).hexdigest()[:16], ".gz" if route == "gz" else ""))
+                with (gzip.open(p, "wt") if route == "gz" else open(p, "w")) as h:
+                    h.write("".join(l + "\n" for l in lines))
+                reader = MafReader.reader_from(p, validation_stringency=md)
+            elif route == "lines-nl":
+                reader = MafReader(lines=(l + "\n" for l in lines), validation_stringency=md)
+            else:
+                reader = MafReader(lines=list(lines), validation_stringency=md)
+        except Exception as e:  # noqa
+            return {"init_exc": exc_name(e)}
+        out = {"records": [], "iter_exc": None}
+        try:
+            it = SortOrderEnforcingIterator(reader, reader.header().sort_order()) if route == "iterator" else reader
+            for rec in it:
+                out["records"].append(str(rec))
+        except Exception as e:  # noqa
+            out["iter_exc"] = exc_name(e)
+        finally:
+            reader.close()
+    return out
+
+
+def first_stranger(recs, order, contigs):
+    """Position of the first record whose chromosome the declared contig list does not name (None: all are named)."""
+    if order not in ("Coordinate", "BarcodesAndCoordinate") or not contigs:
+        return None
+    return next((k for k, x in enumerate(recs) if str(x["chr"]) not in contigs), None)
+
+
+def eval_file(r, recs, order, contigs, typed, route=None, tmp=None):
     """Read one file with the implementation and apply the oracle (shared by run and replay_case).
 
-    `r` is the reader.run request, `recs` the records of its body in file order.  Returns (implementation's answer,
-    where, failures, position of the first descent or None)."""
-    i = impl.run(r)
+    `r` is the reader.run request, `recs` the records of its body in file order, `route` the way the file is opened
+    (None: MafReader(lines=...)).  Returns (implementation's answer, where, failures, position of the first descent or None)."""
+    i = impl.run(r) if route in (None, "lines") else read_via(route, r["lines"], r["mode"], tmp)
     where = {"lines": r["lines"], "mode": r["mode"], "order": order, "contigs": contigs, "typed": typed,
              "records": [[x["tumor"], x["normal"], x["chr"], x["start"], x["stop"]] for x in recs]}
+    if route is not None:
+        where["route"] = route
+    if _EARLIER and contigs:
+        where["earlier_contigs"] = [list(c) for c in _EARLIER if c != list(contigs)]
+    if contigs and list(contigs) not in _EARLIER:
+        _EARLIER.append(list(contigs))
     fails = []
     if "init_exc" in i:
         fails.append(dict(where, what="opening a well-formed file failed", kind="init", got=i["init_exc"]))
         return i, where, fails, None
     sortable = order in ("Coordinate", "BarcodesAndCoordinate")
+    u = first_stranger(recs, order, contigs)
+    if u is not None:
+        # outside C09's own quantifier (the contig list does not cover the data); C08: the unlisted chromosome is reported
+        # as an error instead of being ordered arbitrarily.  A descent before it is C09's case as usual.
+        d = first_descent(recs[:u], order, contigs)
+        if d is not None:
+            if i["iter_exc"] != "ValueError" or len(i["records"]) != d:
+                fails.append(dict(where, what="first descent at record %d: expected exactly %d records then the ordering error" % (d, d),
+                                  kind="descent", got={"exc": i["iter_exc"], "yielded": len(i["records"])}))
+        elif i["iter_exc"] != "ValueError" or len(i["records"]) > u:
+            fails.append(dict(where, what="record %d is on a chromosome missing from the declared contig list: expected an error (ValueError) "
+                                          "before that record is delivered" % u,
+                              kind="contig-missing", got={"exc": i["iter_exc"], "yielded": len(i["records"])}))
+        return i, where, fails, ("stranger", u) if d is None else d
     d = first_descent(recs, order, contigs) if sortable else None
     if d is None:
         if i["iter_exc"] is not None or len(i["records"]) != len(recs):
@@ -78,8 +154,104 @@ def model_differs(r, m, i):
             "impl": {"iter_exc": i.get("iter_exc"), "n": len(i.get("records", []))}}
 
 
+
+def gen_file(rng, strangers):
+    """One generated file: (lines, mode, records in file order, order, contigs, typed, shape)."""
+    typed = rng.random() < 0.5
+    order = rng.choice(["Coordinate", "BarcodesAndCoordinate", "Coordinate", "BarcodesAndCoordinate", "Coordinate", "BarcodesAndCoordinate", "Unsorted", "Unknown", None])
+    contigs = rng.choice([None, ["1", "2", "10", "X"], ["chr1", "chr2", "chr10"], ["10", "2", "X", "1"], ["2", "10", "1", "X"]])
+    chroms = contigs or rng.choice([["1", "2", "10", "X"], ["chr1", "chr2", "chr10"]])
+    recs = gen_recs(rng, rng.randrange(0, 7), chroms)
+    # records that differ from another one in exactly one component of the key (every component in turn)
+    for _k in range(rng.choice([0, 0, 1, 2]) if recs else 0):
+        v = dict(rng.choice(recs))
+        comp = rng.choice(["tumor", "normal", "chr", "start", "stop", "none"])
+        if comp in ("tumor", "normal"):
+            v[comp] = rng.choice([x for x in (["T1", "T2", "TA"] if comp == "tumor" else ["N1", "N2", ""]) if x != v[comp]])
+        elif comp == "chr":
+            v["chr"] = rng.choice(chroms)
+        elif comp == "start":
+            v["start"] = rng.choice([x for x in (1, 9, 10, 100) if x <= v["stop"]] or [v["start"]])
+        elif comp == "stop":
+            v["stop"] = v["start"] + rng.choice([0, 1, 2, 10, 100])
+        recs.append(v)
+    for r in recs:
+        r["_typed"] = typed
+    shape = "as-is"
+    if order in ("Coordinate", "BarcodesAndCoordinate"):
+        recs = sort_recs(recs, order, contigs or [])
+        shape = rng.choice(["sorted", "swap", "swap", "shuffle", "component-descent", "component-descent"] +
+                           (["stranger", "stranger", "stranger+swap"] if strangers and contigs else []))
+        if shape == "component-descent" and recs:
+            # two adjacent records that differ in exactly one component of the key, the greater one first
+            k = rng.randrange(len(recs))
+            a = recs[k]
+            b = dict(a)
+            comp = rng.choice(["chr", "start", "stop"] + (["tumor", "normal", "tumor", "normal"] if order == "BarcodesAndCoordinate" else []))
+            if comp in ("tumor", "normal"):
+                b[comp] = rng.choice([x for x in (["T1", "T2", "TA"] if comp == "tumor" else ["N1", "N2", ""]) if x != a[comp]])
+            elif comp == "chr":
+                b["chr"] = rng.choice([c for c in chroms if c != a["chr"]])
+            elif comp == "start":
+                b["start"], b["stop"] = a["start"] + rng.choice([1, 5, 1000]), max(a["stop"], a["start"] + 1000)
+                a["stop"] = b["stop"]
+            else:
+                b["stop"] = a["stop"] + rng.choice([1, 9, 1000])
+            hi, lo = (a, b) if expected_cmp(norm(a), norm(b), order, contigs or []) > 0 else (b, a)
+            recs[k:k + 1] = [hi, lo]
+        if "swap" in shape and len(recs) >= 2:
+            i = rng.randrange(len(recs) - 1)
+            j = rng.randrange(i + 1, len(recs))
+            recs[i], recs[j] = recs[j], recs[i]
+        elif shape == "shuffle":
+            rng.shuffle(recs)
+        if "stranger" in shape:
+            c = rng.choice([c for c in ["3", "11", "Y", "chr3", "chrY", "GL000192.1", "chr1", "1"] if c not in contigs])
+            s0 = rng.choice([1, 10, 100])
+            recs.insert(rng.randrange(len(recs) + 1), {"tumor": rng.choice(["T1", "T2"]), "normal": rng.choice(["N1", ""]), "chr": c,
+                                                       "start": s0, "stop": s0 + 1, "_typed": typed})
+    header = SC.route_header_lines(order, contigs or [], typed, rng.random() < 0.5)
+    col = "\t".join(impl.scheme_by_annotation("gdc-1.0.0").column_names()) if typed else "\t".join(UNTYPED)
+    lines = header + [col] + to_lines(recs, typed, rng)
+    mode = rng.choice(["Strict", "Lenient", "Silent"]) if typed else rng.choice(["Lenient", "Silent"])
+    return lines, mode, recs, order, contigs or [], typed, shape
+
+
+def route_cases(ctx, out):
+    """The same property through every way of opening a file (lines with or without line ends, a path, a gzip path, the
+    enforcing iterator by hand), and files holding a record on a chromosome that the declared contig list does not name."""
+    import tempfile
+    rng = ctx.rng("c09-routes")
+    cases = []
+    for _ in range(ctx.scale(220, 2500)):
+        lines, mode, recs, order, contigs, typed, shape = gen_file(rng, True)
+        cases.append((make_request(lines, mode), recs, order, contigs, typed, rng.choice(READ_ROUTES), shape))
+    mo = ctx.driver.run([c[0] for c in cases])
+    with tempfile.TemporaryDirectory() as tmp:
+        for (r, recs, order, contigs, typed, route, shape), m in zip(cases, mo):
+            out.evaluations += 1
+            i, where, fails, d = eval_file(r, recs, order, contigs, typed, route, tmp)
+            out.failures += fails
+            if has_unmodelled(m):
+                out.unmodelled += 1
+            elif route == "lines":
+                if m != i:
+                    out.disagreements.append(model_differs(r, m, i))
+            elif (m.get("init_exc"), m.get("iter_exc"), len(m.get("records", []))) != (i.get("init_exc"), i.get("iter_exc"), len(i.get("records", []))):
+                out.disagreements.append(dict(model_differs(r, m, i), route=route, differs=["records yielded / exception"]))
+            if "init_exc" in i:
+                continue
+            out.distribution["route:" + route] += 1
+            out.distribution["shape:" + shape] += 1
+            if isinstance(d, tuple):
+                out.distribution["contig-missing"] += 1
+            if order in ("Coordinate", "BarcodesAndCoordinate") and len(recs) >= 2:
+                out.nontrivial.add(repr((r["lines"], route)))
+
+
 def run(ctx):
     out = Outcome()
+    del _EARLIER[:]
     out.rule = ("files declaring Coordinate / BarcodesAndCoordinate / Unsorted / Unknown / nothing, contig list absent / lexical / karyotypic, typed (gdc-1.0.0) and scheme-less bodies; "
                 "record sequences sorted by the documented key then perturbed by one swap so that the first descent falls at every position; ties and repeated keys; "
                 "non-trivial = sortable order with >= 2 records; distinct files")
@@ -132,6 +304,9 @@ def run(ctx):
             out.nontrivial.add(repr(r["lines"]))
         if len(out.samples) < 4 and d is not None:
             out.sample({"header": r["lines"][:4], "records": [[x["tumor"], x["normal"], x["chr"], x["start"], x["stop"]] for x in recs], "first_descent": d})
+    out.rule += ("; the same files opened through MafReader(lines) with and without line ends, reader_from(path), reader_from(path.gz) and a hand-made "
+                 "SortOrderEnforcingIterator; files with a record on a chromosome that the declared contig list does not name, at every position (error expected, C08)")
+    route_cases(ctx, out)
     return out
 
 
@@ -170,19 +345,31 @@ def replay_case(ctx, failure):
         return None
     lines, mode, order, contigs, typed = list(failure["lines"]), failure["mode"], failure["order"], list(failure.get("contigs") or []), failure["typed"]
     r = make_request(lines, mode)
+    route = failure.get("route")
     k = next((j for j, l in enumerate(lines) if not l.startswith("#")), len(lines))
-    print("file read with MafReader (%s, %s body):" % (mode, "gdc-1.0.0" if typed else "scheme-less"))
+    print("file read with %s (%s, %s body):" % ({None: "MafReader", "lines": "MafReader(lines=...)", "lines-nl": "MafReader over lines that keep their line ends",
+                                                 "path": "MafReader.reader_from(path)", "gz": "MafReader.reader_from(path.gz)",
+                                                 "iterator": "SortOrderEnforcingIterator(reader, reader.header().sort_order())"}.get(route, route),
+                                                mode, "gdc-1.0.0" if typed else "scheme-less"))
     for l in lines[:k]:
         print("    " + l)
     print("    <column line, %d columns>" % len(lines[k].split("\t")) if k < len(lines) else "    <no column line>")
     for x in recs:
         print("    record tumor=%r normal=%r chr=%r start=%r end=%r" % (x["tumor"], x["normal"], x["chr"], x["start"], x["stop"]))
-    i, where, fails, d = eval_file(r, recs, order, contigs, typed)
+    import tempfile
+    del _EARLIER[:]
+    if failure.get("earlier_contigs"):
+        print("earlier in the same process: files declaring the contig lists %s were read" % failure["earlier_contigs"])
+        warm_up(failure["earlier_contigs"])
+    with tempfile.TemporaryDirectory() as tmp:
+        i, where, fails, d = eval_file(r, recs, order, contigs, typed, route, tmp)
     if "init_exc" in i:
         print("implementation: opening failed with %s" % i["init_exc"])
     else:
         print("implementation: yielded %d of %d records, then %s" % (len(i["records"]), len(recs), i["iter_exc"] or "end of file"))
-        if d is None:
+        if isinstance(d, tuple):
+            print("documented: record %d is on a chromosome that the contig list %s does not name; an error (ValueError) expected before it is delivered" % (d[1], contigs))
+        elif d is None:
             print("documented order: %s; all %d records expected" % ("no descent" if order in ("Coordinate", "BarcodesAndCoordinate") else "no sortable order declared", len(recs)))
         else:
             print("documented order: first descent at record %d; %d records then ValueError expected" % (d, d))
@@ -193,8 +380,9 @@ def replay_case(ctx, failure):
         elif "init_exc" in m:
             print("model: opening fails with %s" % m["init_exc"])
         else:
+            same = m == i if route in (None, "lines") else (m.get("iter_exc"), len(m.get("records", []))) == (i.get("iter_exc"), len(i.get("records", [])))
             print("model: yields %d records, then %s%s" % (len(m.get("records", [])), m.get("iter_exc") or "end of file",
-                                                            "" if m == i else "   (differs from the implementation in %s)" % model_differs(r, m, i)["differs"]))
+                                                            "" if same else "   (differs from the implementation in %s)" % model_differs(r, m, i)["differs"]))
     except Exception as e:  # noqa
         print("model: not available (%s)" % str(e)[:200])
     for f in fails:
